@@ -40,6 +40,20 @@ func (MonC01) Transition(x *Exec) *Violation {
 			return viol(u.OpString(x.Op)+" with content "+x.Pre.String(), fmt.Sprint(was), fmt.Sprint(x.DelResult))
 		}
 	}
+	// the key just operated on, on every transition (the successor may be a state seen before, e.g. when an
+	// overwrite is silently dropped, and then gets no state check of its own)
+	var v int
+	var ok bool
+	if p := safely(func() { v, ok = x.D.Search(x.Op.K) }); p != "" {
+		return viol("Search("+u.KeyStr[x.Op.K]+") right after "+u.OpString(x.Op)+" with content "+x.Pre.String(), "returns normally", "panic: "+p)
+	}
+	x.Stats.Evaluations++
+	if x.Op.Kind == OpInsert && (!ok || v != x.Op.V) {
+		return viol("Search("+u.KeyStr[x.Op.K]+") right after "+u.OpString(x.Op)+" with content "+x.Pre.String(), fmt.Sprintf("(%d,true)", x.Op.V), fmt.Sprintf("(%d,%v)", v, ok))
+	}
+	if x.Op.Kind == OpDelete && ok {
+		return viol("Search("+u.KeyStr[x.Op.K]+") right after "+u.OpString(x.Op)+" with content "+x.Pre.String(), "(0,false)", fmt.Sprintf("(%d,true)", v))
+	}
 	return nil
 }
 
